@@ -89,7 +89,7 @@ func (drv *Driver) Name() string {
 }
 
 func (drv *Driver) Open(ctx context.Context, params drivers.Params) (drivers.HTMLPage, error) {
-	req, err := http.NewRequest(http.MethodGet, params.URL, nil)
+	req, err := http.NewRequestWithContext(ctx, http.MethodGet, params.URL, nil)
 	if err != nil {
 		return nil, err
 	}
@@ -262,6 +262,4 @@ func (drv *Driver) makeRequest(ctx context.Context, req *http.Request, params dr
 	if ua != "" {
 		req.Header.Set("User-Agent", ua)
 	}
-
-	req = req.WithContext(ctx)
 }
